@@ -308,6 +308,9 @@ def gen_c07(rnd, n, thorough=False):
             cnt = lim // units[u] + rnd.pick([-1, 0, 1, 2])
             big = '%d%s' % (max(cnt, 1), u)
             add('plist', 'plist %s' % S(rnd.pick(['1s:%s' % big, '%s:%s' % (big, big), '1s:1m,4s:%s' % big, '%s:1' % big])))
+        # separators: an empty definition (leading, trailing, doubled comma; blanks) is not a definition
+        for sep in rnd.sample(['1m:2h,1h:2d,', ',1m:2h', '1m:2h,,1h:2d', ',', '1s:1m, 1m:1h', ' 1s:1m', '1s:1m ', '1s:1m;1m:1h', '1s:1m,1m:1h'], 4):
+            add('plist', 'plist %s' % S(sep))
         for s in rnd.sample(['0', '1', '0.5', '-0', '-0.0', '1.0000001', '1.00000001', 'NaN', 'nan', 'Inf', '-Inf', '1e-50', '0x1p-1', '1_0', '',
                              'abc', '.5', '1e400', '-1e-400', '0.99999997', '0.333333343267', '2', '-1', '1e0', '+1', ' 1', '0,5'], 8):
             add('flagxff', 'cliflagxff %s' % S(s))
